@@ -1,6 +1,7 @@
 import Driver.Util
 import Driver.Signer
 import MevCommit.Model.Preconf
+import MevCommit.Model.ProviderNode
 import MevCommit.Model.ProviderSvc
 import MevCommit.Model.Registry
 import MevCommit.Model.Abi
@@ -20,18 +21,17 @@ def evOf (j : Json) : Event :=
 def ansOf (j : Json) : Registry.CallAns :=
   if jbool j "err" then .err else .bytes (jbytes j "bytes")
 
-/-- the environment of the handler, every gate evaluated by the Lean models of the components
-    (signer C02, registry C11, format rules C12) -/
-def envOf (inp : Json) : Env :=
-  let b := Signer.bidOf (jobj inp "bid")
-  let S := Signer.schemeOf ((jarr inp "prims").toList.map Signer.primOf)
-  { roleIsBidder := jint inp "role" == 2,
-    readOk := jbool inp "read_ok",
-    verifyOk := (MevCommit.Signer.verifyBid Signer.H S b).isOk,
-    allowanceOk := (Registry.check (ansOf (jobj inp "min_ans")) (ansOf (jobj inp "amt_ans"))).answer,
-    formatOk := ProviderSvc.validFormat b.txHash b.amount b.blockNumber b.decayStart b.decayEnd (b.digest.getD []),
+/-- the environment of the handler: the harness's case as an `Arrival`, every gate evaluated by
+    `ProviderNode.envOf` (signer C02, registry C11, format rules C12) — the function
+    `C01_composed` speaks about -/
+def arrivalOf (inp : Json) : ProviderNode.Arrival :=
+  { role := jint inp "role", readOk := jbool inp "read_ok", bid := Signer.bidOf (jobj inp "bid"),
+    minAns := ansOf (jobj inp "min_ans"), amtAns := ansOf (jobj inp "amt_ans"),
     schedule := (jarr inp "schedule").toList.map evOf,
     signOk := jbool inp "sign_ok", storeOk := jbool inp "store_ok", writeOk := jbool inp "write_ok" }
+
+def envOf (inp : Json) : Env :=
+  ProviderNode.envOf Signer.H (Signer.schemeOf ((jarr inp "prims").toList.map Signer.primOf)) (arrivalOf inp)
 
 def effStr : Effect → String
   | .sign => "sign" | .store => "store" | .write => "write"
